@@ -37,6 +37,9 @@ from rpyc.core.channel import Channel
 import protonet
 from lineproto import run_driver, DriverError
 from pipeline import Corr
+from prng import Rng
+from rpyc.lib import Timeout
+
 from simnet import Net, MemStream, Deadlock
 
 ID = "C11"
@@ -74,16 +77,51 @@ EXPLANATION = ("Theorems over ALL finite event sequences of the lifecycle automa
 VAL_REF, VAL_EXC, VAL_OTHER = 1, 2, 3
 
 
-class TcpLikeStream(MemStream):
-    """a write after the peer has closed is accepted (buffered), like TCP before the reset arrives"""
-    accepts_write_after_peer_close = True
+class LStream(MemStream):
+    """MemStream + `gone`: the remote end has vanished as seen from THIS end (end-of-stream once the buffered
+    bytes are consumed, failure at the next write); the other end only notices when this end closes."""
+    gone = False
+    accepts_write_after_peer_close = False
 
     def write(self, data):
         self._hook("write", data)
-        if self._closed:
+        if self._closed or self.gone or (self.peer._closed and not self.accepts_write_after_peer_close):
+            self.close()
             raise EOFError("stream closed")
         self.peer.inbox += data
         self.net.record(self.name, bytes(data))
+
+    def read(self, count):
+        self._hook("read", count)
+        while len(self.inbox) < count:
+            if self._closed:
+                raise EOFError("stream has been closed")
+            if self.peer._closed or self.gone:
+                self.close()
+                raise EOFError("connection closed by peer")
+            self.net.block(self.name, None, want=count)
+        data = bytes(self.inbox[:count])
+        del self.inbox[:count]
+        return data
+
+    def poll(self, timeout):
+        self._hook("poll", timeout)
+        if self._closed:
+            raise EOFError("stream has been closed")
+        t = Timeout(timeout)
+        if self.inbox or self.peer._closed or self.gone:
+            return True
+        if t.finite and t.expired():
+            return False
+        self.net.block(self.name, t.tmax if t.finite else None, want=1)
+        if self._closed:
+            raise EOFError("stream has been closed")
+        return bool(self.inbox) or self.peer._closed or self.gone
+
+
+class TcpLikeStream(LStream):
+    """a write after the peer has closed is accepted (buffered), like TCP before the reset arrives"""
+    accepts_write_after_peer_close = True
 
 
 class LNet(Net):
@@ -92,7 +130,7 @@ class LNet(Net):
         self.tcp_like = tcp_like
 
     def stream_pair(self, a="A", b="B"):
-        cls = TcpLikeStream if self.tcp_like else MemStream
+        cls = TcpLikeStream if self.tcp_like else LStream
         sa, sb = cls(self, a), cls(self, b)
         sa.peer, sb.peer = sb, sa
         self.streams[a], self.streams[b] = sa, sb
@@ -158,6 +196,12 @@ class Svc(rpyc.Service):
         n = len(lst)
         self.h.finish(self.side, ref=False)
         return 60 + n
+
+    def exposed_slow(self, dt):
+        import rpyc.lib
+        rpyc.lib.time.sleep(dt)            # virtual time: the caller's own timeout passes first
+        self.h.finish(self.side, ref=False)
+        return 55
 
     def exposed_close_self(self, ret_ref):
         self.h.close(self.side)
@@ -325,21 +369,20 @@ class Harness(object):
             raise EOFError("injected I/O error")
         if f["how"] == "cut" and info["op"] == "read" and info.get("header"):
             del stream.inbox[f["at"]:]
-        # the peer's end vanishes
-        stream.peer._closed = True
+        # the peer's end vanishes, as seen from this end
+        stream.gone = True
         if ent is not None:
             ent["peer_vanished"] = True
             if info["op"] == "write":
                 ent["ok"] = False
             elif info["op"] == "read":
-                need = protonet.HEADER if info.get("header") else 0
                 if info.get("header"):
-                    ent["eof"] = len(stream.inbox) < need
+                    ent["eof"] = len(stream.inbox) < protonet.HEADER
                     if f["how"] == "cut":
                         ent["cut"] = f["at"]
                         ent.pop("msg", None)
                 else:
-                    ent["eof"] = ent.get("eof", False)
+                    ent["eof"] = len(stream.inbox) < info["arg"]
 
     # ------------------------------------------------------------------ the run
     def execute(self):
@@ -398,10 +441,17 @@ class Harness(object):
 
     def settle(self):
         """let side B run until it blocks or ends"""
+        net = self.net
         for _ in range(50):
             try:
-                if not self.net.run_others("A"):
+                if net.run_others("A"):
+                    continue
+                # nobody has work: if another side waits for the (virtual) clock, let that time pass
+                with net.cv:
+                    dl = [d for s, (d, _w) in net.waiting.items() if s != "A" and d is not None]
+                if not dl:
                     return
+                net.clock.sleep(max(dl) - net.clock.now + 0.001)
             except Deadlock:
                 self.hang = True
                 return
@@ -536,6 +586,15 @@ def w_peer_closes(h):
     h.request("A", "s", b["echo"], (72,))
 
 
+def w_timeout(h):
+    b = warm(h, ("echo", "slow"))
+    if not b:
+        return
+    h.request("A", "s", b["slow"], (100,))                         # sync_request_timeout is 30: AsyncResultTimeout
+    h.request("A", "a", b["echo"], (58,))
+    h.close("A")                                                    # B is still inside its handler
+
+
 def w_close_a_then_b(h):
     b = warm(h)
     if not b:
@@ -600,6 +659,7 @@ WORKLOADS = {
     "close_in_callback": dict(run=w_close_in_callback),
     "close_in_callback_ref": dict(run=w_close_in_callback_ref),
     "peer_closes": dict(run=w_peer_closes),
+    "timeout": dict(run=w_timeout),
     "close_a_then_b": dict(run=w_close_a_then_b),
     "close_b_then_a": dict(run=w_close_b_then_a),
     "close_both_at_once": dict(run=w_close_both_at_once),
@@ -609,7 +669,6 @@ WORKLOADS = {
     "before_closed_fetches_root": dict(run=w_before_closed_uncached, before_closed_a="return"),
     "both_at_once_tcp": dict(run=w_both_tcp, before_closed_a="return", tcp_like=True),
 }
-QUICK_CUT_WORKLOADS = ("sync", "nested", "pending", "close_a_then_b")
 
 
 # ---------------------------------------------------------------------------------------------- abstraction
@@ -657,7 +716,8 @@ def abstract(h, side):
             if e["n"] == 1:
                 flush_reply()
                 snap1 = len(toks)
-            continue
+                continue
+            break
         if e.get("side") != side:
             continue
         if t == "finish":
@@ -680,8 +740,8 @@ def abstract(h, side):
                     if e["ok"]:
                         close_sent = True
                     continue
-                if e.get("handler") == consts.HANDLE_DEL and not e["ok"]:
-                    continue          # a proxy's destructor whose request cannot be sent: swallowed by __del__
+                if e.get("handler") == consts.HANDLE_DEL and e["own_closed"]:
+                    continue          # a proxy's destructor on a closed channel (e.g. inside _cleanup): swallowed by __del__
                 flush_reply()
                 s = e["seq"]
                 if e.get("label") is not None:
@@ -837,22 +897,27 @@ def compare(h, side, n, ids, mline):
 
 
 # ---------------------------------------------------------------------------------------------- cases
-def fault_points(workload, cuts):
+def fault_points(workload, cuts, rng=None):
     """the fault-free run of a workload -> list of faults (one per transport call and flavour, + cuts)"""
     h = Harness(workload).execute()
     faults = [None]
     for k, (op, side) in enumerate(h.rec.calls):
         faults.append(dict(k=k, how="err"))
         faults.append(dict(k=k, how="eof"))
-    n_cut = 0
     if cuts:
         for e in h.rec.events:
             if e["t"] == "recv" and e.get("flen"):
-                offs = range(e["flen"]) if cuts == "all" else sorted(set(
-                    o for o in (0, 1, 4, 5, 6, e["flen"] // 2, e["flen"] - 2, e["flen"] - 1) if 0 <= o < e["flen"]))
+                n = e["flen"]
+                if cuts == "all":
+                    offs = range(n)
+                else:
+                    # header boundaries, first body bytes, middle, last bytes + two seeded offsets
+                    pick = [0, 1, 4, 5, 6, n // 2, n - 2, n - 1]
+                    if rng is not None:
+                        pick += [rng.below(n), rng.below(n)]
+                    offs = sorted(set(o for o in pick if 0 <= o < n))
                 for at in offs:
                     faults.append(dict(k=e["call"], how="cut", at=at))
-                    n_cut += 1
     return h, faults
 
 
@@ -870,20 +935,22 @@ def run_case(workload, fault):
 
 def correspondence(ctx):
     c = Corr()
-    c.rule = ("16 workloads x (fault-free run + a fault at every individual transport call of that run, two flavours: I/O "
+    c.rule = ("17 workloads x (fault-free run + a fault at every individual transport call of that run, two flavours: I/O "
               "error at this end / the peer vanishing) + cuts at byte offsets inside the packet at every header read "
-              "(quick: 8 offsets per packet of 4 workloads; thorough: every offset of every packet of every workload). "
+              "(quick: header boundaries, first/middle/last body bytes + 2 seeded offsets of every packet; thorough: every "
+              "offset of every packet). "
               "Compared per side, after the workload and after the after-phase (wait for everything pending, two new "
               "requests, close twice): closed, hook runs, tables empty (when closed), outcome of every request, what "
               "close() raised, nobody blocked, no deadlock. Non-trivial = a fault fired or a close happened; distinct = "
               "distinct (workload, faulted op, faulted side, flavour, final flags and outcome classes).")
     deadline = time.time() + ctx.budget(50, 800)
     thorough = ctx.tier == "thorough"
+    rng = Rng(ctx.seed).fork("c11")
     cases = []
     for wname in WORKLOADS:
-        cuts = "all" if thorough else ("some" if wname in QUICK_CUT_WORKLOADS else None)
+        cuts = "all" if thorough else "some"
         try:
-            h0, faults = fault_points(wname, cuts)
+            h0, faults = fault_points(wname, cuts, rng)
         except Exception as ex:  # noqa
             c.error = "harness crashed on the fault-free run of %s: %r" % (wname, ex)
             return c
